@@ -69,6 +69,8 @@ def parked_pairs(ctx, r):
                 if mid != before:
                     ctx.violation("C02 a failed command wrote (%s)" % reqB["cmd"], "B exited %s but the log changed while A held the lock" % rb["exit"], {"trace": trace + [step]}); return
                 ra = pk.resume(); pk = None
+                if ra.get("tracer_error"):      # strace itself failed: the run says nothing about ergo
+                    ctx.count(1, key=("skipped: tracer error",)); continue
                 g = c.graph()
                 bad = lines_valid(c.log_bytes())
                 if bad or "err" in g:
